@@ -35,6 +35,18 @@ def read_env(env):
         out.append(dict(context=plain(c), named=named, actions=acts, rewards=[i["rewards"](a) for a in acts], rfun=i["rewards"]))
     return out
 
+def make_env(rng, args, case=None):
+    """the same environment through the constructor or through Environments.from_supervised (the property's observation point), arguments positional or by keyword"""
+    from coba.environments import SupervisedSimulation, Environments
+    names = ["source", "label_col", "label_type", "take"] if hasattr(args[0], "read") else ["X", "Y", "label_type"]
+    args = list(args)
+    while args and args[-1] is None and len(args) > (1 if names[0] == "source" else 2): args.pop()
+    npos = rng.randrange(1 if names[0] == "source" else 2, len(args) + 1)
+    pos, kw = args[:npos], {names[i]: args[i] for i in range(npos, len(args))}
+    via = rng.choice(["constructor", "from_supervised"])
+    if case is not None: case["via"] = via; case["keywords"] = sorted(kw)
+    return SupervisedSimulation(*pos, **kw) if via == "constructor" else Environments.from_supervised(*pos, **kw)[0]
+
 def expect(label_type, Y):
     """(actions, reward(y, a)) by the property's definition"""
     delist = lambda l: l[0] if isinstance(l, list) else l
@@ -64,7 +76,7 @@ def check_xy(ctx, n_cases):
         case = dict(X=X, Y=Y, label_type=lt)
         ctx.count("xy:" + lk + ":" + str(lt), repr(case), n >= 2 and len(set(map(repr, Y))) >= 2)
         try:
-            got = read_env(SupervisedSimulation(X, Y, lt))
+            got = read_env(make_env(rng, (X, Y, lt), case))
         except Exception as e:
             ctx.fail(["xy", "raises", errname(e), eff], "SupervisedSimulation(X,Y,%r) raised %s: %s on %s" % (lt, errname(e), str(e)[:100], case), case); continue
         acts, rew = expect(eff, Y)
@@ -135,8 +147,8 @@ def check_sources(ctx, n_cases):
                 src = ArffSource(ListSource(lines))
                 exp_ctx = [[float(v) for j, v in enumerate(r) if j != lab] for r in feats]
                 exp_acts = list(classes); cat = True
-            env = SupervisedSimulation(src, "lbl" if by_name else lab, "c", take)
             case = dict(format=fmt, lines=lines, label_col="lbl" if by_name else lab, take=take)
+            env = make_env(rng, (src, "lbl" if by_name else lab, "c", take), case)
         else:
             multi = fmt == "manik" or rng.random() < 0.3
             labels = [rng.sample(["1", "2", "3"], rng.randrange(1, 3 if multi else 2)) for _ in range(n)]
@@ -145,10 +157,10 @@ def check_sources(ctx, n_cases):
             if fmt == "manik": lines = ["%d 5 3" % n] + lines
             src = (ManikSource if fmt == "manik" else LibSvmSource)(ListSource(lines))
             lt = "m" if multi else "c"
-            env = SupervisedSimulation(src, None, lt, take)
             exp_ctx = rows; cat = False
             exp_acts = sorted(set(x for l in labels for x in l)) if multi else sorted(set(l[0] for l in labels))
             case = dict(format=fmt, lines=lines, label_type=lt, take=take)
+            env = make_env(rng, (src, None, lt, take), case)
         ctx.count("source:" + fmt, repr(case), n >= 2)
         try:
             got = read_env(env); again = read_env(env)
@@ -182,7 +194,8 @@ def check_sources(ctx, n_cases):
         if ok:
             pool = list(zip(exp_ctx, labels))
             for g in got:
-                what = "actions"; acts = [str(a) for a in g["actions"]] if cat else g["actions"]
+                what = "actions"      # nominal ARFF labels: Categoricals, or their one-hot codes once Environments has finalised them (position = level)
+                acts = [(classes[a.index(1)] if isinstance(a, tuple) and sorted(a) == [0] * (len(classes) - 1) + [1] else str(a)) for a in g["actions"]] if cat else g["actions"]
                 if acts != exp_acts: ok = False; break
                 what = "context/rewards"
                 match = [k for k, (c, l) in enumerate(pool) if c == g["context"] and
@@ -214,6 +227,28 @@ def check_prelabelled(ctx, n_cases):
         ok = len(got) == n and all(g["context"] == [v for j, v in enumerate(r) if j != lab] and g["actions"] == acts and all(abs(Fr(g["rfun"](a)) - Fr(rew(y, a))) < Fr(1, 10**9) for a in ([0, 1, 7] if eff == "r" else acts)) for g, r, y in zip(got, rows, Y))
         if not ok: ctx.fail(["prelabelled", "wrong", "rows=%s arg=%s" % (row_t, arg_t)], "label type %r expected (explicit argument first, then the rows' type): got %s on %s" % (eff, [(g["context"], g["actions"], g["rewards"]) for g in got][:3], case), case)
 
+def check_dict_rows(ctx, n_cases):
+    """sparse examples given as dicts with the label under a key; a zero label is not stored (the sparse convention)"""
+    from coba.pipes import ListSource
+    rng = ctx.rng
+    for _ in range(n_cases):
+        n = rng.randrange(1, 7)
+        feats = [{k: rng.randrange(1, 9) for k in rng.sample("abcd", rng.randrange(0, 4))} for _ in range(n)]
+        lt = rng.choice(["c", "r", None])
+        labels = [rng.randrange(0, 3) for _ in range(n)]
+        store_zero = rng.random() < 0.3
+        rows = [dict(f, **({"y": l} if l != 0 or store_zero else {})) for f, l in zip(feats, labels)]
+        case = dict(format="dicts", rows=rows, label_col="y", label_type=lt)
+        ctx.count("source:dicts", repr(case), n >= 2 and 0 in labels)
+        eff = lt or "r"
+        try:
+            got = read_env(make_env(rng, (ListSource([dict(r) for r in rows]), "y", lt), case))
+        except Exception as e:
+            ctx.fail(["source", "raises", "dicts", errname(e)], "dict rows raised %s: %s on %s" % (errname(e), str(e)[:100], case), case); continue
+        acts, rew = expect(eff, labels)
+        ok = len(got) == n and all(g["context"] == f and g["actions"] == acts and all(abs(Fr(g["rfun"](a)) - Fr(rew(y, a))) < Fr(1, 10**9) for a in ([0, 1, 7] if eff == "r" else acts)) for g, f, y in zip(got, feats, labels))
+        if not ok: ctx.fail(["source", "wrong", "dicts", eff], "dict rows with label key 'y' (type %r): got %s, the examples are %s / %s on %s" % (lt, [(g["context"], g["actions"], g["rewards"]) for g in got][:3], feats[:3], labels[:3], case), case)
+
 def corpus(ctx):
     from coba.environments import SupervisedSimulation
     for Y in ([["10", "11"], ["11"]], [[1, 2], [2]]):
@@ -229,6 +264,7 @@ def run(ctx):
     check_xy(ctx, ctx.n(800, 10000))
     check_sources(ctx, ctx.n(400, 5000))
     check_prelabelled(ctx, ctx.n(200, 2500))
+    check_dict_rows(ctx, ctx.n(200, 2500))
 
 def replay(r):
     print(json.dumps(r, indent=1, default=str)[:3000]); return 0
